@@ -84,6 +84,8 @@ class Chain:
                 cur = cur.replace(op[1], op[2])
             elif op[0] == "wrap":
                 cur = op[1] + cur + op[2]
+            elif op[0] == "translate":
+                cur = cur.translate(op[1])
             else:
                 raise AnalysisError(f"unknown op {op}")
         return cur
@@ -216,6 +218,18 @@ def _chain_of(r: Any, v: Any, interp: Any = None) -> Tuple[Optional[Chain], Opti
                 if name == "replace" and len(args) == 2 and all(isinstance(a, Const) and isinstance(a.value, str) for a in args):
                     e = walk(recv)
                     ch.ops.append(("replace", args[0].value, args[1].value))
+                    return e
+                if name == "translate" and len(args) == 1 and isinstance(args[0], PyDict):
+                    table: Dict[int, Any] = {}
+                    for hk, val in args[0].items.items():
+                        kav = args[0].keys_av[hk]
+                        if not (isinstance(kav, Const) and isinstance(kav.value, int) and not isinstance(kav.value, bool)):
+                            return "translate table with a non-integer key"
+                        if not (isinstance(val, Const) and (val.value is None or isinstance(val.value, (str, int)))):
+                            return "translate table with a non-constant replacement"
+                        table[kav.value] = val.value
+                    e = walk(recv)
+                    ch.ops.append(("translate", table))
                     return e
                 return f"string method {name} is not modelled"
             if t.op == "strslice":
